@@ -80,6 +80,12 @@ prop("C09", stems=[], props=["Props/C09.v"], falsify="falsify_C09", level="trans
      technique="translation validation: parsed C program = instruction list, decided by vm_compute in Coq, generic-semantics theorem",
      explanation="C bodies vs instruction lists of all shipped functions")
 
+prop("C20", stems=[], props=["Props/C20.v"], falsify=None, corr="corr_bus", corr_budget={"quick": 200, "thorough": 6000},
+     level_text="Kernel-checked theorems (axiom-free, by induction over arbitrary operation histories) about hand-written executable models of cyecca/sim/uros.py, the estimator node's callbacks and simpy's timeout scheduling with the periodic logger: a publish reaches exactly the subscribers of its topic, once each, in registration order, whatever was registered before or after; wrong-type and unknown-topic publishes are rejected with the state unchanged; registration is refused once the logger locked the bus; after a successful set_param every node following the parameter topic sees the new value; the node never predicts with dt <= 0, applies accelerometer / magnetometer corrections no closer than their thresholds (dt_min - 1 ms, exact rationals of the doubles), and does nothing before a successful initialisation when one is requested; logger time stamps never decrease. The tie to the code is a differential correspondence check (model evaluated by vm_compute, real objects driven with recording callbacks / stub equations) on seeded random histories: 200 (quick) / 6000 (thorough) bus histories incl. a malformed stream, node message sequences with off-rate, duplicate and out-of-order stamps and DIFFERENT dt_min_accel / dt_min_mag set through the parameter interface, and simpy runs with simultaneous events. Partial: 'the latest message of every topic is in each log row' is established by the correspondence only (the model is its own specification there); parameter nodes declared after init_params are outside the modelled histories.",
+     level_note="Trusted: Coq kernel (vm_compute for the correspondence cases); the hand models are MODELLED, not verified code: their link to uros.py / estimator.py / simpy is the bounded random correspondence check only. No axioms.",
+     technique="Coq proof by induction over operation histories on a hand-written executable model + differential correspondence with the implementation",
+     explanation="bus/logger/node-gating theorems for all histories; correspondence on seeded histories")
+
 prop("C16", stems=["Quadrotor"], props=["Props/C16.v"], falsify="falsify_C16",
      level_text="Kernel-checked theorems over the regenerated real-number model of quadrotor.derive_model(): q.qdot=0, quaternion and position kinematics, hover equilibrium, free-fall accelerometer, rotor-sum wrench (Euler and Newton equations), motor first-order law, translation and yaw equivariance, for ALL states, inputs and parameter vectors (parameters are symbolic). Not proved: the exponential closed-form motor response (only the ODE right-hand side), drag-on branch of the force sum.",
      level_note=GEN_NOTE + "Numeric search on the real functions (harness/falsify_C16.py) supports replay generation only.",
